@@ -239,7 +239,7 @@ int main(int argc, char** argv) {
         std::printf("START %llu %ld\n", (unsigned long long)s, n);
         std::fflush(stdout);
         Scenario sc = generate(prop, s, tier, plain);
-        const bool scaleScenario = sc.src.size() > 20000;     // the two large scenarios of a batch: two schedules are enough
+        const bool scaleScenario = sc.src.size() > 3000;     // the two large scenarios of a batch: two schedules are enough
         for (int k = 0; k < (scaleScenario ? std::min(K, 2) : K) && !g_leakSeen; ++k) {
             applySchedule(sc, k, plain);
             runOne(sc, false);
